@@ -249,6 +249,8 @@ cargo-fuzz = true
 [dependencies]
 libfuzzer-sys = "0.4"
 slicec = {{ path = "{repo}/slicec" }}
+slice-codec = {{ path = "{repo}/slice-codec" }}
+libc = "0.2"
 
 [[bin]]
 name = "compile"
@@ -257,12 +259,20 @@ test = false
 doc = false
 bench = false
 
+[[bin]]
+name = "decode"
+path = "decode.rs"
+test = false
+doc = false
+bench = false
+
 [workspace]
 """
 
 
-def build_fuzz():
-    """libFuzzer + AddressSanitizer build of the compile target (cargo-fuzz, nightly). Returns the path of the fuzzer binary."""
+def build_fuzz(target="compile"):
+    """libFuzzer + AddressSanitizer build of a fuzz target (cargo-fuzz, nightly): `compile` (the library pipeline, C01) or `decode`
+    (the codec's decoders against the reference decoder, C11). Returns the path of the fuzzer binary."""
     outer = os.path.join(tdir(), "gen", "fuzzproj")
     g = os.path.join(outer, "fuzz")
     os.makedirs(os.path.join(outer, "src"), exist_ok=True)
@@ -270,6 +280,9 @@ def build_fuzz():
     _write_if_changed(os.path.join(outer, "Cargo.toml"), '[package]\nname = "fuzzproj"\nversion = "0.0.0"\nedition = "2021"\n[workspace]\nmembers = ["."]\nexclude = ["fuzz"]\n')
     _write_if_changed(os.path.join(outer, "src", "lib.rs"), "")
     _write_if_changed(os.path.join(g, "Cargo.toml"), FUZZ_MANIFEST.format(verif=VERIF, repo=repo()))
+    vcsrc = os.path.join(_gen_vc(), "src")
+    with open(os.path.join(VERIF, "fuzz-harness", "decode.rs.in")) as f:
+        _write_if_changed(os.path.join(g, "decode.rs"), f.read().replace("@VCSRC@", vcsrc))
     lock = os.path.join(g, "Cargo.lock")
     if not os.path.exists(lock):
         shutil.copy(os.path.join(repo(), "Cargo.lock"), lock)
@@ -278,5 +291,5 @@ def build_fuzz():
     env["CARGO_TARGET_DIR"] = td
     with open(os.path.join(tdir(), ".build.lock"), "w") as lk:
         fcntl.flock(lk, fcntl.LOCK_EX)
-        _run(["cargo", "+nightly", "fuzz", "build", "compile"], env, cwd=outer)
-    return os.path.join(td, "x86_64-unknown-linux-gnu", "release", "compile")
+        _run(["cargo", "+nightly", "fuzz", "build", target], env, cwd=outer)
+    return os.path.join(td, "x86_64-unknown-linux-gnu", "release", target)
